@@ -31,6 +31,11 @@ CHECKS = {
          'All 5 449 valid layouts of up to 4 parameters (kind x default x annotation; thorough: also all 5-parameter layouts) x 3 return forms x {function, method, classmethod, staticmethod, async} are built into real modules, rendered with pages.format_signature / format_function_def / format_overloads and parsed back by CPython as `def f<text>: pass`: names, order, kinds (separators), default positions, default and annotation ASTs (string annotations unquoted, Literal kept) and the return annotation must equal the source. 5 449 overload groups of three overloads + implementation check that each overload shows its own signature; 18 defaults x 20 annotations x 3 shapes cover the expression dimension.',
          'Trusted: CPython ast.parse as oracle; the layout generator (validated by ast.parse).',
          'DESIGN.md section 5, C14'),
+ 'C02': ('model_checking',
+         'explicit-state exploration of analysis histories (event sequences) x processing orders on the real System; invariants I1-I9 evaluated on every reached state',
+         'Every history of up to 3 (thorough 4) events over an 18-event alphabet (define, redefine as class/function/variable, nest, documented-only field, instance attribute, re-export move / renamed / star / by sibling, local definition in the re-exporter, consumers, in-module subclass, two kinds of import cycle, zope implementer) is turned into a 3-module project and built by the real System in both processing orders of the siblings (thorough: 222 300 executions, 10 413 distinct final states). On every final state the nine invariants of the statement are evaluated: registry keys = current qualified names, each object once; contents/parent agreement; parent chains rooted and registered; non-entries are superseded duplicates; kinds fit places; MRO head/once; subclasses = inverse of bases; implements/implementedby; distinct page names. Failing histories are delta-minimised to the events that matter.',
+         'Trusted: the invariant evaluator (120 lines); the event alphabet; in-memory module builds (the on-disk path is cross-checked by C06/C07).',
+         'DESIGN.md section 5, C02'),
 }
 
 
